@@ -163,6 +163,13 @@ def main(argv=None) -> int:
         lines.append(f"INCONCLUSIVE property={prop} reason={r[:400]}")
 
     wall = round(time.time() - t0, 2)
+    if os.environ.get("VERIF_SHOW"):  # partial / scratch runs write no evidence: show the counters matching this regex instead
+        import re as _re
+        pat = _re.compile(os.environ["VERIF_SHOW"])
+        for group in ("classes", "monitors", "arms", "reached", "stats"):
+            for k, v in sorted(dict(m[group]).items()):
+                if pat.search(k):
+                    print(f"  {group}: {k} = {v}")
     if not a.no_evidence and not a.only:
         samples = m["samples"][:10] or [{"class": "none", "case": "no case evaluated"}]
         ev = {
